@@ -12,11 +12,12 @@ use aws_smt_strings::character_sets::*;
 use aws_smt_strings::loop_ranges::*;
 use aws_smt_strings::smt_strings::*;
 use std::panic::{catch_unwind, AssertUnwindSafe};
+mod regex_oracle;
 use std::time::{Duration, Instant};
 
-const MAXC: u32 = 0x2FFFF;
+pub const MAXC: u32 = 0x2FFFF;
 
-struct Ctx {
+pub struct Ctx {
     prop: String,
     seed: u64,
     deadline: Instant,
@@ -25,7 +26,7 @@ struct Ctx {
     rng: u64,
 }
 
-struct Failure {
+pub struct Failure {
     oracle: String,
     input: String,
     expected: String,
@@ -33,7 +34,7 @@ struct Failure {
 }
 
 impl Ctx {
-    fn rnd(&mut self) -> u64 {
+    pub fn rnd(&mut self) -> u64 {
         // xorshift64*
         let mut x = self.rng;
         x ^= x >> 12;
@@ -42,14 +43,14 @@ impl Ctx {
         self.rng = x;
         x.wrapping_mul(0x2545F4914F6CDD1D)
     }
-    fn below(&mut self, n: u64) -> u64 {
+    pub fn below(&mut self, n: u64) -> u64 {
         self.rnd() % n.max(1)
     }
-    fn out_of_time(&self) -> bool {
+    pub fn out_of_time(&self) -> bool {
         Instant::now() > self.deadline
     }
     /// run one case; returns Some(failure) to stop
-    fn case<F: FnOnce() -> Option<Failure>>(&mut self, f: F) -> Option<Failure> {
+    pub fn case<F: FnOnce() -> Option<Failure>>(&mut self, f: F) -> Option<Failure> {
         self.case_no += 1;
         if let Some(c) = self.only_case {
             if c != self.case_no {
@@ -74,11 +75,11 @@ fn esc(s: &str) -> String {
     o
 }
 
-fn fail(oracle: &str, input: String, expected: String, got: String) -> Option<Failure> {
+pub fn fail(oracle: &str, input: String, expected: String, got: String) -> Option<Failure> {
     Some(Failure { oracle: oracle.to_string(), input, expected, got })
 }
 
-fn guarded<T, F: FnOnce() -> T>(f: F) -> Result<T, String> {
+pub fn guarded<T, F: FnOnce() -> T>(f: F) -> Result<T, String> {
     catch_unwind(AssertUnwindSafe(f)).map_err(|e| {
         if let Some(s) = e.downcast_ref::<&str>() {
             format!("panic: {}", s)
@@ -1452,6 +1453,13 @@ fn main() {
         "C17" => c17(&mut ctx),
         "C08" => c08(&mut ctx),
         "C13" => c13(&mut ctx),
+        "C01" | "C07" => regex_oracle::c01(&mut ctx),
+        "C03" => regex_oracle::c03(&mut ctx),
+        "C02" | "C19" | "C04" | "C14" => regex_oracle::automata_checks(&mut ctx, &prop),
+        "C05" => regex_oracle::c05(&mut ctx),
+        "C18" => regex_oracle::c18(&mut ctx),
+        "C16" => regex_oracle::c16(&mut ctx),
+        "C10" => regex_oracle::c10(&mut ctx),
         _ => {
             println!("{{\"prop\":\"{}\",\"found\":false,\"supported\":false,\"cases\":0}}", esc(&prop));
             return;
